@@ -296,7 +296,19 @@ def gen_venv_layout(root, outside, rng):
                     target[f"{base}/{pkgdir}/tests/conftest.py"] = "from ..level2 import *\n"
                     target[f"{base}/{pkgdir}/tests/__init__.py"] = ""
         ver = "0.1"
-        files[f"{sp}/{raw}-{ver}.dist-info/entry_points.txt"] = f"[pytest11]\ne{j} = {pkgdir}.plugin\n"
+        ep_target = f"{pkgdir}.plugin"
+        if inside and rng.random() < 0.4:
+            # the entry point names the PACKAGE; the package also carries its own tests (conftest + test module), which the
+            # workspace walk has already indexed when the plugin phase walks the package directory
+            ep_target = pkgdir
+            target[f"{base}/{pkgdir}/__init__.py"] = "from .plugin import *\n"
+            tc = f"{base}/{pkgdir}/tests/conftest.py"
+            k[0] += 1
+            target[tc] = target.get(tc, "") + (HDR if "import pytest" not in target.get(tc, "") else "") + fx(f"{nm}_intests", k[0])
+            expect[f"{nm}_intests"] = {"tier": "dontcare", "rel": tc, "k": k[0]}
+            target[f"{base}/{pkgdir}/tests/__init__.py"] = ""
+            target[f"{base}/{pkgdir}/tests/test_inside.py"] = f"def test_inside({nm}_intests, {nm}):\n    pass\n"
+        files[f"{sp}/{raw}-{ver}.dist-info/entry_points.txt"] = f"[pytest11]\ne{j} = {ep_target}\n"
         files[f"{sp}/{raw}-{ver}.dist-info/direct_url.json"] = json.dumps({"url": "file://" + src_root, "dir_info": {"editable": True}})
         pth = rng.choice([f"__editable__.{norm}-{ver}.pth", f"_{norm}.pth", f"{norm}.pth", f"__editable__.{raw}-{ver}.pth"])
         files[f"{sp}/{pth}"] = rng.choice(["", "# comment\n", "import sys\n"]) + src_root + "\n"
@@ -369,6 +381,8 @@ def part_b(ctx, vh, n, n_srv):
                 ctx.violation({"kind": "explicitly-imported-plugin-fixture", "name": u["name"], "tier": real},
                               {"target": t, "defs": defs}, files=files | {"OUT/" + k_: v for k_, v in ext_files.items()})
                 continue
+            if tier == "dontcare":
+                continue
             if tier == "none":
                 if t is not None:
                     ctx.violation({"kind": "fixture-of-unloaded-module-visible", "name": u["name"]}, {"target": t}, files=files)
@@ -422,7 +436,7 @@ def server_symbols(ctx, root, files, expect):
             items = items.get("items", [])
         for it in items:
             e = expect.get(it["label"])
-            if not e or e["tier"] in ("none",) or e["tier"].startswith("explicit_"):
+            if not e or e["tier"] in ("none", "dontcare") or e["tier"].startswith("explicit_"):
                 continue
             ctx.judged()
             want = "[third-party]" if e["tier"] == "third_party" else "[plugin]"
